@@ -34,14 +34,16 @@ _PARSE_TRUST = ['byteorder BigEndian::{read_u16,read_u128,write_u16} = big-endia
 
 PROPS['C02'] = {
     'level': 'proof',
-    'vx': [{'unit': 'parse', 'functions': ['from_bytes', 'parse', 'padded_attr_len', 'padded_len', 'get_type', 'transaction_id', 'next', 'length', 'deref', 'try_from', 'data_length', 'new']}],
+    'vx': [{'unit': 'parse', 'functions': ['from_bytes', 'parse', 'padded_attr_len', 'padded_len', 'get_type', 'transaction_id', 'next', 'length', 'deref', 'try_from', 'data_length', 'new']},
+           {'unit': 'parsecause', 'functions': ["Message<'a> :: from_bytes", 'lemma_tiles_extend', 'lemma_seen_extend', 'tiles']}],
     'kx': ['k02_lookups_small'],
     'bx': ['c02'],
     'rule': 'Verus verification conditions, one query per extracted function / lemma of unit parse.',
     'proved': ['Message::from_bytes: Ok <==> wf_message(bytes) (spec predicate written from the statement), message == buffer',
                'error causes: <20 bytes Truncated{20,len}; bad top bits/cookie NotStun; declared>available Truncated{declared+20,len}; NotStun/FingerprintMismatch/AttributeAfter* only named truthfully',
+               '(unit parsecause: from_bytes extracted a second time with a witness contract) a rejection names its cause: AttributeAfterFingerprint(t) => t is the type of an attribute at a TLV walk position that is preceded by a FINGERPRINT at an earlier walk position; AttributeAfterIntegrity(t) => ... preceded by a MESSAGE-INTEGRITY(-SHA256); FingerprintMismatch => a 4-byte FINGERPRINT at a walk position whose value is not crc32(bytes before it, length field covering it) ^ 0x5354554e',
                'get_type / transaction_id read the RFC fields; MessageAttributesIter::next yields exactly exposed(bytes) with type, length and value bytes of each TLV'],
-    'bounded': ['raw_attribute / has_attribute / attribute (iterator adaptors find/any): BX, and Kani bounded harness k02_lookups_small (thorough tier: three zero-length attributes, all type triples)', 'exact variant/type of interior rejections: BX differential against the reference decoder'],
+    'bounded': ['raw_attribute / has_attribute / attribute (iterator adaptors find/any): BX, and Kani bounded harness k02_lookups_small (thorough tier: three zero-length attributes, all type triples)', 'which of several applicable causes is reported, and the byte counts of interior truncations: BX differential against the reference decoder'],
     'trusted': _PARSE_TRUST,
 }
 PROPS['C17'] = {
@@ -100,7 +102,7 @@ PROPS['C19'] = {
     'level': 'proof',
     'vx': [{'unit': 'parse', 'functions': ['MessageType :: from_bytes', 'get_type', 'transaction_id', 'MessageHeader :: from_bytes', 'From<u128>']},
            {'unit': 'builder', 'functions': ['MessageType :: write_into', "MessageBuilder<'a> :: write_into"]}],
-    'kx': ['k19_class_method', 'k19_from_bytes_all', 'k19_tid_mask', 'k17_header_from_bytes', 'k_shim_u128'],
+    'kx': ['k19_class_method', 'k19_from_bytes_all', 'k19_tid_mask', 'k17_header_from_bytes', 'k_shim_u128', 'k03_build_small'],
     'bx': ['c19'],
     'rule': 'Kani complete harnesses (loop-free / fixed trip count over full-domain symbolic inputs) + Verus VCs of unit parse.',
     'proved': ['all 4x4096 (class, method): type field == RFC 8489 s5 interleaving written bit by bit; class()/method() invert it; wire form round-trips',
@@ -148,7 +150,7 @@ PROPS['C12'] = {
     'level': 'exploration',
     'trusted_extra': ['sub-slice write shims slice_copy_at / slice_fill_at / be_write_uN_at_slice (vx/shims/slices.rs; cross-checked by KX k_shim_slices), String::as_bytes/len = UTF-8 encoding (vx/shims/string.rs)'],
     'vx': [{'unit': 'writers'}, {'unit': 'attrs', 'functions': ['to_raw', 'length', 'get_type', "RawAttribute<'a> :: new", 'padded']}, {'unit': 'builder', 'functions': ['write_into', 'into_owned', 'to_owned', 'lemma_layout_congruent']}],
-    'kx': ['k_shim_slices', 'k_shim_write_u16', 'k_shim_u128'] + ['k12_raw_attribute'] + [k for k in _ATTR_K if k not in ('k_check_len', 'k08_error_code_new', 'k08_unknown_attributes_small')],
+    'kx': ['k_shim_slices', 'k_shim_write_u16', 'k_shim_u128', 'k03_build_small'] + ['k12_raw_attribute'] + [k for k in _ATTR_K if k not in ('k_check_len', 'k08_error_code_new', 'k08_unknown_attributes_small')],
     'bx': ['c12'],
     'rule': 'Kani harnesses: helper check_writers (in-place writer vs RFC layout vs raw conversion, 0xAA-filled oversize buffer, every shorter buffer) on every decodable value of the fixed-size types; BX for variable-length types and builders.',
     'proved': ['(Verus, unit writers, values of ANY length) AttributeWriteExt::write_into: destination shorter than the padded length => Err(TooSmall{expected: padded, actual}) and nothing written; otherwise exactly the padded TLV (type, declared length == value length, value, zero padding) and nothing beyond it is touched, the padded length returned',
@@ -241,6 +243,7 @@ PROPS['C03'] = {
     'level': 'exploration',
     'vx': [{'unit': 'layout'}, {'unit': 'writers', 'functions': ['write_into', 'write_into_unchecked', 'to_bytes', 'write_header']},
            {'unit': 'builder', 'functions': ['write_into', 'into_owned', 'to_owned', 'add_fingerprint_unchecked', 'add_message_integrity_unchecked', 'integrity_bytes_from_message', 'theorem_sealed_fingerprint', 'theorem_sealed_sha1', 'theorem_sealed_sha256', 'lemma_last_tlv', 'lemma_layout_push', 'lemma_layout_split', 'lemma_write_step', 'lemma_write_room', ':: from', ':: new']}],
+    'kx': ['k03_build_small'],
     'bx': ['c03'],
     'technique': 'Verus: spec-level round-trip theorem over the verified parser/writer contracts; bounded stand-in (execution of the real MessageBuilder against an independent serialiser + reference decoder) for the builder itself',
     'rule': 'see engines.bx[0].rule',
@@ -249,7 +252,7 @@ PROPS['C03'] = {
                '(unit builder) MessageBuilder::write_into, for attribute lists of ANY length: into an exact or larger destination it writes header20(type, body length, magic cookie, 96-bit transaction id) followed by the padded TLVs of the attributes in order and reports exactly that length (so length = 20 + a sum of multiples of four, header length field = length - 20), touching nothing beyond it; AttrOrRaw::write_into dispatches to the two writers; MessageType::write_into',
                '(unit builder) sealing: add_fingerprint_unchecked / add_message_integrity_unchecked append exactly one attribute whose value is the CRC / HMAC of build() with the adjusted length field (over the assumed contracts of build(), the crc/hmac crates and make_hmac_key), and the composition theorems show the sealed serialisation satisfies fp_ok / mi_correct / mi256_correct; AttrOrRaw::into_owned, RawAttribute::into_owned, Data::into_owned preserve type and value bytes',
                '(in C02/C10) the parser accepts exactly the well-formed buffers and exposes them faithfully - so "parses back identically" reduces to "the builder concatenates header and attribute TLVs as specified" (now proved for write_into) plus the sealing values'],
-    'bounded': ['byte_len (iterator map/sum) == 20 + padded TLV sizes: assumed in VX, BX compares it with build().len() and the independent serialiser',
+    'bounded': ['byte_len (iterator map/sum) == 20 + padded TLV sizes and build() == header + TLVs: assumed in VX; BX compares them with the independent serialiser, Kani k03_build_small (thorough tier) checks them on builders of two raw attributes with symbolic types / 0..=4 symbolic value bytes / all ids',
                 'build() (vec![0; byte_len] then write_into; iterator sum): assumed == header + TLVs in VX; MessageBuilder::clone: BX random builder programs',
                 'typed value equality after the round trip for UNKNOWN-ATTRIBUTES (decoder uses chunks_exact) and constructors: BX'],
     'trusted': _BX_TRUST + ['AttributeWriteExt::write_into on dyn AttributeWrite / RawAttribute: assumed in unit builder with the contract proved in unit writers (same text); be_write_u128_at_slice / be_write_u16_slice shims (KX k_shim_u128)'],
@@ -290,7 +293,7 @@ for _p in ('C01', 'C02', 'C05', 'C06', 'C07', 'C08', 'C09', 'C10', 'C12', 'C13',
 
 LEVEL_TEXT = {
  'C01': "Proof: Verus discharges every index/slice/arithmetic/unwrap/unreachable/termination obligation of the decoding entry points (whole message, header, type, raw attribute, 14 typed decoders, iterator, validate_integrity) for ALL byte strings, with precondition `true` on the bytes (representation invariant wf_message for methods on an accepted message); Kani covers the remaining 5 typed decoders completely. Formatting, policing and tracing-subscriber clauses are outside both verifiers and are run by the bounded stand-in (catch_unwind + watchdog), listed as bounded. One known finding (D8) is reported as KNOWN-FINDING.",
- 'C02': "Proof: `Message::from_bytes` is verified `Ok <==> wf_message(bytes)` for buffers of every length against a recursive spec predicate written from the statement (not from the code); header fields, the exposed attribute stream (iterator) and the header/declared-length error cases are postconditions. Lookups through iterator adaptors and the exact variant of interior rejections are decided by the bounded differential against an independent reference decoder.",
+ 'C02': "Proof: `Message::from_bytes` is verified `Ok <==> wf_message(bytes)` for buffers of every length against a recursive spec predicate written from the statement (not from the code); header fields, the exposed attribute stream (iterator) and the header/declared-length error cases are postconditions; each interior rejection (attribute after integrity / after fingerprint with its type, fingerprint mismatch) is proved to point at a real witness in the buffer (unit parsecause). Lookups through iterator adaptors, and which of several applicable causes is reported, are decided by the bounded differential against an independent reference decoder.",
  'C03': "Exploration: MessageBuilder::write_into is verified by Verus to write header + padded TLVs of the attribute list in order for lists of any length (per-attribute writers proved under C12), and the spec-level theorem shows that this layout is accepted by the verified parser and has the stated length properties; the sealing workers (HMAC/CRC over build()), byte_len/build (iterator sums), into_owned and typed-value equality for three list-valued types remain a bounded stand-in (random builder programs vs an independent serialiser with independent HMAC/CRC) - hence exploration.",
  'C04': "Proof: `Message::validate_integrity` is verified for every accepted message and every credential against the RFC 8489 s14.5/14.6 specification (which exposed attribute is checked, HMAC input = prefix with the length field set to the end of that attribute, truncated SHA-256 lengths, MissingAttribute) with HMAC/MD5 as uninterpreted functions. That the hmac/sha crates compute those functions, the key derivation and tamper-evidence on concrete messages are bounded (independent HMAC-SHA1/SHA256/MD5 implementation).",
  'C05': "Exploration: whole-view postconditions of send / handle_stun / take_outstanding_request / request_transaction / cancel / StunRequestState::poll and the exactly-once theorem over them are proved by Verus; the one link that is not (StunAgent::poll's `values_mut` loop, which turns a per-request verdict into removal) is decided by the bounded stand-in stepping the real agent against an abstract agent - so the property as a whole is claimed at exploration.",
